@@ -11,7 +11,7 @@
    [touch]: whether the bigBed reader also hands over entries that merely touch the fetched range (it does
    when their block is read at all) -- the theorems hold either way.
    Zoom mode (`exact = False`): [values_wig_zoom] / [values_bed_zoom] are the same wrappers with to_array_zoom /
-   to_entry_array_zoom (after the repair ce28381) in the middle, on the records of the chosen zoom level;
+   to_entry_array_zoom (after the repair 7cf302c) in the middle, on the records of the chosen zoom level;
    [zoom_ok 0 len recs]: the records lie in [0, len), are non-empty, disjoint and in start order (what C07/C08
    prove of a stored level), have at least one covered base and a mean sum/bases_covered that is exact in the
    model's unit; [zoom_cell] / [zoom_stat] / [zov] say what a bin reports.  [touch] as above (get_zoom_interval
